@@ -394,4 +394,9 @@ def run(F, R, config="all"):
     from . import c07
     c07.r7(F, R, rid="C05-R7")
     c07.r8(F, R, rid="C05-R8")
+    # "in MCLMC with dynamic step size a faulted step is retried with a smaller step": the retry bookkeeping must cover the step budget,
+    # otherwise the draw is cut short and `assert!(steps_taken >= num_base_steps)` panics
+    from . import c18
+    K.borrow_rule(R, lambda sub: c18.r4(F, sub), "C05-R9", "MCLMC step-size retry after a faulted step: halve on push, double on pop, unwind every finished level "
+                  "(decided by the C18-R4 analysis of mclmc_kernel)", only_rules={"C18-R4"})
     R.assume("user-supplied Math implementations may return any error at any call; is_recoverable() is the documented classifier")
